@@ -451,6 +451,23 @@ func runFaults(sc *fScenario) (d string, tag string) {
 					break
 				}
 			}
+		case "edge":
+			// remaining length = 16 KiB ring minus one read block: the packet is three bytes over what the broker takes;
+			// all but its last two bytes arrive, in read-block sized segments
+			p := pkt(0x30, append(lp([]byte("t")), bytes.Repeat([]byte{'e'}, 8192-3)...))
+			p = p[:len(p)-2]
+			for off := 0; off < len(p); off += 4096 {
+				end := off + 4096
+				if end > len(p) {
+					end = len(p)
+				}
+				if err := fr.write(f, append([]byte(nil), p[off:end]...), 400*time.Millisecond); err != nil {
+					break
+				}
+			}
+			time.Sleep(20 * time.Millisecond)
+			f.cut = true
+			f.c.Close()
 		case "serverclose":
 			go func() { r.svr.Close(); close(closeDone) }()
 			select {
@@ -548,7 +565,7 @@ func runFaults(sc *fScenario) (d string, tag string) {
 				return fmt.Sprintf("%s: the broker did not close the connection within %v", where, faultDeadline), tag
 			}
 		}
-		if f != nil && st.Free && (st.A == "cut" || st.Gone) && f.svc != 0 {
+		if f != nil && st.Free && (st.A == "cut" || st.A == "edge" || st.Gone) && f.svc != 0 {
 			if !waitStop(f.svc, faultDeadline) {
 				n, first := libraryGoroutines()
 				dd := fmt.Sprintf("%s: no open connection has stopped reading, but the teardown of %s did not finish within %v (%d library goroutines, e.g. %s)",
